@@ -162,10 +162,11 @@ def _explore_task(args):
         if fam.snap == "micro":
             ctx.grid_scale = 64     # k/64 is exactly representable AND on the 1e-6 lattice
         status = "ok"
+        aborted = None
         try:
             fam.body(ctx, case)
-        except (core.Abort, core.PrefixCut):
-            raise
+        except (core.Abort, core.PrefixCut) as e:
+            aborted = e
         except Exception as e:
             # The code under test (or the shim) raised on a feasible path.  Candidate: must be replayed.
             status = "exception:" + type(e).__name__
@@ -184,6 +185,8 @@ def _explore_task(args):
             c["inputs"] = {k: _jsonable(v) for k, v in c["inputs"].items()}
             if len(res["candidates"]) < 60:
                 res["candidates"].append(c)
+        if aborted is not None:
+            raise aborted
         npath = res["completed"]
         want_val = (npath % fam.validate_every == 0) and len(val_jobs) < fam.max_validate and status == "ok"
         want_sample = len(res["samples"]) < 3
